@@ -19,6 +19,13 @@ type Event struct {
 	Data    []byte
 	Timeout bool
 	EOF     bool
+	Delay   time.Duration // time that passes before the data arrives (the harness keeps it below the read deadline)
+}
+
+// ReadInfo records, per Read call, whether the read deadline was renewed just before it and how it ended.
+type ReadInfo struct {
+	Renewed bool
+	Timeout bool
 }
 
 type state struct {
@@ -27,6 +34,10 @@ type state struct {
 	closed chan struct{}
 	isDone bool
 	Reads  int
+
+	deadline time.Time
+	renewed  bool
+	Log      []ReadInfo
 }
 
 // One scripted connection at a time: statically resolved promoted methods reach
@@ -46,11 +57,19 @@ func NewConn(script []Event) *net.TCPConn {
 
 func Reads(c *net.TCPConn) int { return cur.Reads }
 
+// Drained reports whether every scripted event has been consumed.
+func Drained(c *net.TCPConn) bool { return cur.pos >= len(cur.script) }
+
 func IsClosed(c *net.TCPConn) bool { return cur.isDone }
+
+// ReadLog returns what happened at each Read call so far.
+func ReadLog(c *net.TCPConn) []ReadInfo { return cur.Log }
 
 func Read(c *net.TCPConn, p []byte) (int, error) {
 	s := cur
 	s.Reads++
+	s.Log = append(s.Log, ReadInfo{Renewed: s.renewed})
+	s.renewed = false
 	if s.isDone {
 		return 0, ErrClosed
 	}
@@ -62,10 +81,20 @@ func Read(c *net.TCPConn, p []byte) (int, error) {
 	switch {
 	case ev.Timeout:
 		s.pos++
+		s.Log[len(s.Log)-1].Timeout = true
+		if !s.deadline.IsZero() {
+			if d := s.deadline.Sub(time.Now()); d > 0 {
+				time.Sleep(d) // a timeout is returned when the deadline set by the reader passes
+			}
+		}
 		return 0, ErrTimeout
 	case ev.EOF:
 		s.pos++
 		return 0, io.EOF
+	}
+	if ev.Delay > 0 {
+		time.Sleep(ev.Delay)
+		ev.Delay = 0
 	}
 	n := copy(p, ev.Data)
 	if n < len(ev.Data) {
@@ -91,9 +120,13 @@ type addr struct{}
 func (addr) Network() string { return "tcp" }
 func (addr) String() string  { return "10.0.0.1:5140" }
 
-func RemoteAddr(c *net.TCPConn) net.Addr                                { return addr{} }
-func SetKeepAlive(c *net.TCPConn, keepalive bool) error                 { return nil }
-func SetReadDeadline(c *net.TCPConn, t time.Time) error                 { return nil }
+func RemoteAddr(c *net.TCPConn) net.Addr                { return addr{} }
+func SetKeepAlive(c *net.TCPConn, keepalive bool) error { return nil }
+func SetReadDeadline(c *net.TCPConn, t time.Time) error {
+	cur.deadline = t
+	cur.renewed = true
+	return nil
+}
 func TrySetTCPReadBuffer(c *net.TCPConn, max int, min int) (int, error) { return max, nil }
 
 func IsNetworkTimeout(err error) bool { return err == ErrTimeout }
